@@ -25,7 +25,9 @@ func (f *FunTy) OverLoaded() (key string, fk FunKind) {
 	}
 }
 
-// canonical 返回字段按名称排序后的类型, 结构相等的类型得到相同的字符串表示
+// Canonical 返回字段按名称排序后的类型, 结构相等的类型得到相同的字符串表示
+func Canonical(ty *Type) *Type { return canonical(ty) }
+
 func canonical(ty *Type) *Type {
 	switch ty.Kind {
 	case KList:
